@@ -214,6 +214,10 @@ RES_TABLE = {
     ("<syscalls::FrozenFd as std::convert::From<Fd>>::from", "utils::fd::FdExt::as_unsafe_path_unchecked", "ok"): "diagnostics only (path shown in error messages)",
     ("utils::dir::remove_all", "utils::dir::remove_inode", "is_ok"): "fast path; on failure the slow path redoes the removal and reports its own error",
     ("procfs::ProcfsHandle::new::{closure#0}", "*", "fallback"): "constructor fallback chain",
+    ("procfs::ProcfsHandle::new", "procfs::ProcfsHandle::new_fsopen", "swallowed"): "constructor fallback chain: the next way of getting a /proc handle is tried, the last one's error is returned (order checked by C06.R6)",
+    ("procfs::ProcfsHandle::new", "procfs::ProcfsHandle::new_open_tree", "swallowed"): "constructor fallback chain (C06.R6)",
+    ("procfs::ProcfsHandle::new_unmasked", "procfs::ProcfsHandle::new_fsopen", "swallowed"): "constructor fallback chain (C06.R6)",
+    ("procfs::ProcfsHandle::new_unmasked", "procfs::ProcfsHandle::new_open_tree", "swallowed"): "constructor fallback chain (C06.R6)",
     ("procfs::ProcfsHandle::open", "procfs::ProcfsHandle::new_unmasked", "swallowed"): "no unmasked handle available: the original lookup error is returned instead (direction checked by C08.R3)",
     ("syscalls::RENAME_FLAGS_SUPPORTED::{closure#0}", "syscalls::renameat2", "matched"): "feature probe",
 }
